@@ -34,6 +34,18 @@ T = {
  'C13/b': ('f0c2d01', 'ast Expression/ExpressionAtom Evaluate: Evaluated = operands\' Evaluated instead of true', 'receiver indexed out of a call result (Cart.GetItems()[0].Heavy()): re-run every rule and cycle', 'caught', ''),
  'C14/a': ('f0c2d01', 'ast/Expression.go Evaluate: hoisted operand error checks; the right operand\'s error is never tested', 'failing right operand of == / != with a string or bool on the left', 'caught', ''),
  'C14/b': ('f0c2d01', 'engine/GruleEngine.go: break instead of continue after a failed condition', 'default mode, failing rule next to healthy ones, map order puts it first', 'caught', ''),
+ 'C15/a': ('f0c2d01', 'engine/GruleEngine.go: runner.Execute is handed context.WithoutCancel(ctx)', 'cancellation after the engine\'s last check of the cycle and before the actions start (inside the last condition or a listener callback)', 'caught', ''),
+ 'C15/b': ('f0c2d01', 'ast/RuleEntry.go: ctx.Err() replaced by a helper that compares the deadline with the clock when the context has one', 'context with a far deadline cancelled explicitly, in the same end-of-cycle window', 'caught', ''),
+ 'C16/a': ('f0c2d01', 'engine/GruleEngine.go: the !Deleted test hoisted out of the cycle loop (slice of live entries built once)', 'rule removed from the instance while Execute runs (from a fact method or a listener); its condition turns true in a later cycle', 'caught', ''),
+ 'C16/b': ('f0c2d01', 'builder/RuleBuilder.go: registration loop runs only when the walk stopped and writes RuleEntries[name] directly', 'later resource redefines an existing name and has a syntax error after it: build fails but the existing rule is replaced', 'caught', ''),
+ 'C17/a': ('f0c2d01', 'antlr/ParserCommon.go unquoteString: double-quoted literals decoded by strconv.Unquote', 'double-quoted description or string constant containing a raw line break: valid document rejected', 'missed', 'OPT-5: only strconv.UnquoteChar may reject a string token; OPT-5 added to C17 and C18'),
+ 'C17/b': ('f0c2d01', 'ast/Salience.go AcceptIntegerLiteral: range test rewritten with inclusive comparisons', 'salience exactly 2147483647 or -2147483648: valid document rejected', 'caught', ''),
+ 'C18/a': ('f0c2d01', 'antlr/ParserCommon.go unquoteString: every escape re-encoded with utf8.AppendRune (same mechanism as C05_b of round 1)', 'struct API, description or const string with a byte >= 0x80 that is not valid UTF-8', 'other-rule', 'OPT-5 (of C05) reported it; OPT-5 added to C18'),
+ 'C18/b': ('f0c2d01', 'pkg/JsonResource.go buildExpressionEx: unary not reports itself as needing no brackets; parseOperand returns unbracketed operands before applying the negation', 'unary not whose single operand is a unary not: outer negation dropped', 'missed', 'one more trigger of D18 (negation lost in parseOperand); JSN-5 second half reports the D18 return on the base commit with and without the patch, so nothing new is reported for the seed; on the repaired tree (859fe69) the seeded change is behaviour-preserving (its demo passes) and the checker is silent on it'),
+ 'C19/a': ('f0c2d01', 'ast/Expression.go GetSnapshot: > and >= both rendered as the mirrored <', 'X >= Y and X > Y (or Y < X) over identical operands in one knowledge base, operands equal: >= shares the node of >', 'other-rule', 'OPT-1 (of C05) reported it with an imprecise message; SNAP-4 extended (fixed slots, own operator); SNAP-3/4 added to C19'),
+ 'C19/b': ('f0c2d01', 'pkg/reflectools.go GetValueElem: recursion replaced by reflect.Indirect + one interface unwrap', 'operand of kind interface whose dynamic value is a pointer', 'caught', ''),
+ 'C20/a': ('f0c2d01', 'ast/Serializer.go ReadCatalogFromReader: the six maps pre-sized with the count read from the stream', 'one 8-byte count field edited to 2^20..2^38', 'caught', ''),
+ 'C20/b': ('f0c2d01', 'pkg/JsonResource.go ParseJSONRuleset decodes into []*GruleJSON and ranges over the pointers', 'a null element in the top-level JSON array: nil pointer dereference in parseRule, no barrier on the JSON rule path', 'missed', 'LDR-11 JSON null cannot become a dereferenced nil pointer'),
 }
 
 def main():
